@@ -264,3 +264,22 @@ ASSUME = ["Go channel/select/context/WaitGroup semantics as modelled in lean/Gol
           "testing/synctest quiescence detection and virtual clock are faithful; user functions are pure and total",
           "FMap arrows belong to the family 'send each element under select with ctx.Done, return nil on Done'",
           "lock-step explores schedules in which environment moves happen at quiescent points; other interleavings are covered by the theorems only"]
+
+
+def stress(ctx, names, rounds, key):
+    """Free-running -race stress (thorough tier, supporting evidence): builds the harness with the race detector
+    and runs TestStress* for `names`. A failure (wrong result or DATA RACE report) is a concrete violation;
+    a build problem of the race runtime is recorded, never alarmed on."""
+    binp, err = build(ctx, race=True)
+    if binp is None:
+        ctx.cov["race_stress"] = "race build unavailable: " + (err or "")[-300:]
+        return
+    p = subprocess.run([binp, "-test.run", "TestStress", "-test.count=1", "-test.timeout=600s"],
+                       env=dict(os.environ, STRESS=",".join(names), STRESS_ROUNDS=str(rounds)), capture_output=True, text=True, timeout=700)
+    ctx.cov["race_stress"] = {"tests": names, "rounds": rounds, "result": "ok" if p.returncode == 0 else "FAILED"}
+    if p.returncode != 0:
+        txt = p.stdout + p.stderr
+        m = re.search(r"STRESS [^\n]*", txt)
+        what = "DATA RACE reported by the race detector" if "DATA RACE" in txt else (m.group(0) if m else "stress run failed")
+        ctx.violations.append(vlib.Violation("impl", "free-running stress (-race, GOMAXPROCS up to 16): " + what, case="go test -race -run TestStress (STRESS=%s)" % ",".join(names),
+                                             got=txt[-2500:], key=dict(key, **{"class": "stress"})))
